@@ -262,8 +262,15 @@ def generate(run_seed, tier):
             nd = len(cur)
             ops[pos] = ['refit', cur]
             if cfg['obs'] is not None and r.random() < 0.4:
-                # ... and is handed another observation (other bin layout)
-                ops[pos].append(S.gen_obs(r, mcfg))
+                # ... and is handed another observation (other bin layout, or
+                # the same bin centres with narrower bins and other values)
+                if len(cfg['obs']['rows'][0]) == 4 and r.random() < 0.4:
+                    f_ = r.uniform(0.8, 0.95)
+                    ops[pos].append({'rows': [
+                        [row[0], row[1] * r.uniform(0.97, 1.03), row[2],
+                         row[3] * f_] for row in cfg['obs']['rows']]})
+                else:
+                    ops[pos].append(S.gen_obs(r, mcfg))
             else:
                 ops[pos].append(None)
             # ... or another (fresh) model object of the same configuration
